@@ -563,7 +563,9 @@ def oracle_unprotect(size, win, echo_recovery, log):
             if cls == "style" and auth and initialised and all(a < seq for a in accepted) and seq >= pre_index and \
                     (pre_top is None or seq > pre_top):
                 return f"authentic number {seq} above everything seen was refused ({o})"
-            if auth and o == "P" and cls != "response":
+            if auth and o == "P" and cls == "style":
+                # (under an outer code that is neither FETCH nor POST the message is refused as unverifiable
+                # before it is decrypted: ProtectionInvalid since fix 51b9257, ValueError before)
                 return f"authentic message {seq} failed decryption"
             if before != after:
                 return f"refused message {seq}{under} changed the replay window {before} -> {after}"
